@@ -33,8 +33,11 @@ class ScaleToBounds(torch.nn.Module):
         super().__init__()
         self.lower_bound = float(lower_bound)
         self.upper_bound = float(upper_bound)
-        self.register_buffer("min_val", torch.tensor(lower_bound))
-        self.register_buffer("max_val", torch.tensor(upper_bound))
+        # floating-point buffers also for integer bounds: the training-mode forward pass stores the (floating-point)
+        # minimum / maximum of the features in them, which an integer buffer of a freshly constructed module truncates
+        # when a state dict is loaded
+        self.register_buffer("min_val", torch.tensor(self.lower_bound))
+        self.register_buffer("max_val", torch.tensor(self.upper_bound))
 
     def forward(self, x):
         if self.training:
